@@ -21,6 +21,10 @@ type ConcConfig struct {
 	Yield     bool  `json:"yield"`     // runtime.Gosched() at random points between calls
 	TimeoutMs int   `json:"timeoutMs"` // timeout of the timed spec (large enough not to fire spuriously under load)
 	MaxLen    int   `json:"maxLen"`    // cap on input byte length (0: none); race-detector runs use a cap
+	// FailBias: every few calls a goroutine makes a Replace that fails in its first scan (stack limit
+	// reached) and then bool/find calls on inputs of the same pool size class, each goroutine with its own
+	// letter: what an error path does to the pooled buffers shows as another goroutine's text
+	FailBias bool `json:"failBias,omitempty"`
 }
 
 type ConcMismatch struct {
@@ -82,6 +86,24 @@ func RunConcurrent(cfg ConcConfig) ConcReport {
 	for g := range calls {
 		for k := 0; k < cfg.K; k++ {
 			st, _ := GenStep(rng, false)
+			if cfg.FailBias {
+				stack, tail := -1, -1
+				for i, sp := range table {
+					if sp.Name == "stacklimit" {
+						stack = i
+					}
+					if sp.Name == "tail" {
+						tail = i
+					}
+				}
+				switch {
+				case stack >= 0 && k%6 == 0:
+					st = Step{Re: stack, Op: "Replace", In: Input{Unit: "ab", Reps: 1500 + 50*g}, Repl: 0, Count: -1, StartAt: -1}
+				case tail >= 0 && k%6 <= 3:
+					// (\w+)\W*$ sees every rune up to the end of the decoded text
+					st = Step{Re: tail, Op: []string{"MatchString", "Find", "FindAll"}[k%3], In: Input{Unit: string(rune('A' + g%20)), Reps: 2900 + 10*g + k, Tail: " !"}, StartAt: -1, N: -1}
+				}
+			}
 			if cfg.MaxLen > 0 && len(st.In.String()) > cfg.MaxLen && len(st.In.Unit) > 0 {
 				st.In.Reps = cfg.MaxLen / len(st.In.Unit) / 2
 				if st.StartAt > 0 {
